@@ -111,6 +111,7 @@ type Engine struct {
 	observe  []obsItem
 	pcNotes  []string
 
+	fatalSeen     []string
 	lastPanicFn   string
 	depth         int
 	pendingVal    int64
@@ -804,6 +805,7 @@ func (e *Engine) runPath(prefix []Decision, run func()) {
 	e.steps = 0
 	e.pathObl = 0
 	e.depth = 0
+	e.fatalSeen = e.fatalSeen[:0]
 	e.lastPanicFn = ""
 	e.observe = e.observe[:0]
 	e.Res.Paths++
@@ -814,6 +816,11 @@ func (e *Engine) runPath(prefix []Decision, run func()) {
 		func() {
 			// solver interaction below may itself fail; never let it escape
 			defer func() { recover() }()
+			if len(e.fatalSeen) > 0 {
+				if _, isInc := r.(inconclusive); !isInc {
+					e.pathPanicked("fatal-error", "csvq recovered a panic and built a Fatal Error: "+e.fatalSeen[0])
+				}
+			}
 			switch p := r.(type) {
 			case nil:
 				e.Res.PathsCompleted++
